@@ -18,7 +18,7 @@ for d in dirs:
     res = {"dir": d}
     try:
         txt = open(os.path.join(d, "demo_path.txt")).read()
-        m = re.search(r"(\S*tests/seed2?_demo(?:_\d)?\.rs)", txt)
+        m = re.search(r"(\S*tests/seed\d*_demo(?:_\d)?\.rs)", txt)
         rel = m.group(1).lstrip("./")
         name = os.path.basename(rel)[:-3]
         cdir = os.path.dirname(os.path.dirname(rel))
